@@ -453,3 +453,47 @@ def hint_to_python(h):
     if t == 'annot':
         return typing.Annotated[(rec(h[1]),) + tuple(vexp_to_python(v) for v in h[2])]
     raise ValueError(h)
+
+
+_CONFS = {}
+
+
+def make_conf(is_random=True, strategy='O1', extra=None):
+    """BeartypeConf for a case: extra = {'tower': bool, 'ov': [[key IR, value IR], ...],
+    'violation': {'violation_type': name, ...}, 'verbosity': int, 'is_color': bool|None}"""
+    import json as _json
+    from beartype import BeartypeConf, BeartypeStrategy, FrozenDict
+    key = _json.dumps([is_random, strategy, extra], sort_keys=True)
+    if key not in _CONFS:
+        kw = {'is_random': is_random, 'strategy': getattr(BeartypeStrategy, strategy)}
+        extra = extra or {}
+        if extra.get('tower'):
+            kw['is_pep484_tower'] = True
+        if extra.get('ov'):
+            kw['hint_overrides'] = FrozenDict({hint_to_python(k): hint_to_python(v) for k, v in extra['ov']})
+        for name, cls in (extra.get('violation') or {}).items():
+            kw[name] = VIOLATION_CLASSES[cls]
+        if 'verbosity' in extra:
+            from beartype import BeartypeViolationVerbosity
+            kw['violation_verbosity'] = BeartypeViolationVerbosity(extra['verbosity'])
+        if 'is_color' in extra:
+            kw['is_color'] = extra['is_color']
+        _CONFS[key] = BeartypeConf(**kw)
+    return _CONFS[key]
+
+
+class UserViolation(Exception):
+    pass
+
+
+class UserParamViolation(UserViolation):
+    pass
+
+
+class UserWarningViolation(UserWarning):
+    pass
+
+
+VIOLATION_CLASSES = {'UserViolation': UserViolation, 'UserParamViolation': UserParamViolation,
+                     'UserWarningViolation': UserWarningViolation, 'ValueError': ValueError,
+                     'DeprecationWarning': DeprecationWarning}
